@@ -353,6 +353,12 @@ func (r *runner) evaluate(c *RunConfig) ([]Violation, *Outcome) {
 		return OracleC07(o, twin), o
 	case "C08":
 		var seq, o *Outcome
+		if r.job.Mode == "race" && c.Runners.Mode == "real" && c.Workflow != WPeriodFast {
+			// 10^6-bit samples under the race detector: the sequential twin would
+			// take minutes; the run is there for the detector's reports
+			o = r.exec(c)
+			return checkLive("C08", o), o
+		}
 		if inFreshChild {
 			o = r.exec(c)
 			seq = r.cachedExec(seqTwin(c))
@@ -617,6 +623,31 @@ func TestBatch(t *testing.T) {
 		plan := Plan(job.Prop, job.Tier, job.Seed)
 		res.Planned = len(plan)
 		mine := 0
+		if job.Mode == "race" && job.Prop == "C08" {
+			// the race monitor's own cases: the real test functions on real
+			// threads (what a serialising scheduler cannot reach: accesses with
+			// no synchronisation at all between them). Every process runs the
+			// periodic workflow; the one with most CPUs also a 10^6-bit one.
+			pr := simctl.NewRand(simctl.Mix(job.Seed, 0xace0+uint64(job.I)))
+			ws := []string{WPeriodFast, WPeriodFast, WPeriodFast}
+			if job.I == job.N-1 {
+				ws = append([]string{WPeriodFast, WPowerOnFast}, ws...)
+				if job.Tier != "quick" {
+					ws = append(ws, WFactoryFast, WPowerOnFast)
+				}
+			}
+			for k, w := range ws {
+				c := RunConfig{Prop: job.Prop, Workflow: w, Workers: 0, Policy: genPolicy(pr, 100),
+					Stream: prfStream(pr), Chunk: ChunkSpec{Kind: "full"}, Fault: FaultSpec{Kind: "none"}, Runners: RunnerSpec{Mode: "real", Lockstep: k%2 == 1 || w != WPeriodFast}, ReadYield: 1, Note: "race-monitor-real-runners"}
+				vs, o := r.evaluate(&c)
+				res.Cases++
+				res.Probes["race-monitor-real-runner-run:"+w]++
+				r.note(o)
+				for _, viol := range vs {
+					r.report(&c, -1-k, viol, o)
+				}
+			}
+		}
 		// deal groups of adjacent cases (cases sharing a comparison run) to the
 		// N processes in a seeded shuffled order
 		G := GroupSize(job.Prop, job.Tier)
